@@ -76,6 +76,7 @@ type Contract struct {
 	Records  []Clause            // ghost instrumentation: assumed after calls, not checked against the body
 	Stable   []string            // package-level variables assumed not to be modified by uncontracted calls
 	Stateless bool               // result is a function of the argument values alone
+	NoAuto   bool                // do not propose loop invariants automatically
 	Wraps    bool                // signed 64-bit +,- wrap around exactly (integer mode)
 	Dead     map[string]bool     // returns claimed unreachable ("ret6")
 	TypeInv  []TypeInvClause     // objinv T [label] expr-over-self: assumed wherever a field of a *T that the clause mentions is addressed
@@ -285,6 +286,9 @@ func (cs *ContractSet) parseContractFile(path, pkgPath string, trusted bool) err
 				// pure, and the result depends on the arguments only (not on memory): plain data in, plain data out
 				cur.Pure = true
 				cur.Stateless = true
+			case "noauto":
+				// no automatically proposed loop invariants: everything the proof needs is written in the contract
+				cur.NoAuto = true
 			case "wraps":
 				// integer mode, but signed 64-bit + and - are modelled exactly (two's complement wrap-around)
 				cur.Wraps = true
